@@ -39,7 +39,33 @@ def _is_new(f: FuncInfo, inventory: set) -> bool:
     mod = f.module.short + "."
     if any(q.startswith(mod) and q.rsplit(".", 1)[-1] == f.name for q in inventory):
         return False
+    if _renamed_anchor(f) is not None:
+        return False
     return True
+
+
+_MODEL_FUNCS: dict = {"names": None}
+
+
+def set_current_functions(names) -> None:
+    _MODEL_FUNCS["names"] = set(names)
+
+
+def _renamed_anchor(f: FuncInfo):
+    """A pinned function of the same module that no longer exists and has exactly f's parameter
+    list (at least one parameter): f is that function under a new name, not a new helper."""
+    try:
+        from .inventory import SIGNATURES
+    except ImportError:
+        return None
+    cur = _MODEL_FUNCS["names"]
+    if cur is None or not f.params or isinstance(f.parent, FuncInfo):
+        return None
+    mod = f.module.short + "."
+    for q, ps in SIGNATURES.items():
+        if q.startswith(mod) and q not in cur and tuple(ps) == tuple(f.params) and q.count(".") == f.qualname.count("."):
+            return q
+    return None
 
 
 def _decorator_kind(f: FuncInfo) -> Optional[str]:
@@ -452,6 +478,7 @@ def inline_new_helpers(model, inventory: set) -> list:
     """One round: inlines calls of new helpers in every function of the model (in place, on the
     module trees).  Returns the qualified names of the callers that changed."""
     changed = []
+    set_current_functions(model.functions)
     new_helpers = [f for f in model.functions.values() if _is_new(f, inventory)]
     if not new_helpers:
         return changed
@@ -499,3 +526,96 @@ def drop_absorbed_helpers(model, inventory: set) -> list:
             owner_body.remove(h.node)
             dropped.append(h.qualname)
     return dropped
+
+
+# --------------------------------------------------------------------------- new named constants
+def _const_node(v):
+    """The constant a module-level binding stands for, or None: str / number / bool / None
+    literals and tuples of them (an f-string without holes and implicit concatenation already are
+    a single Constant in the AST)."""
+    if isinstance(v, ast.Constant) and not isinstance(v.value, (bytes, type(Ellipsis))):
+        return v
+    if isinstance(v, ast.Tuple) and v.elts and all(isinstance(e, ast.Constant) for e in v.elts):
+        return v
+    if isinstance(v, ast.JoinedStr) and all(isinstance(x, ast.Constant) for x in v.values):
+        return ast.Constant(value="".join(x.value for x in v.values))
+    return None
+
+
+class _FoldFStrings(ast.NodeTransformer):
+    def visit_JoinedStr(self, n):
+        self.generic_visit(n)
+        out = []
+        for v in n.values:
+            if isinstance(v, ast.FormattedValue) and isinstance(v.value, ast.Constant) and isinstance(v.value.value, str) \
+                    and v.conversion == -1 and v.format_spec is None:
+                v = ast.copy_location(ast.Constant(value=v.value.value), v)
+            if isinstance(v, ast.Constant) and out and isinstance(out[-1], ast.Constant):
+                out[-1] = ast.copy_location(ast.Constant(value=out[-1].value + v.value), out[-1])
+            else:
+                out.append(v)
+        if len(out) == 1 and isinstance(out[0], ast.Constant):
+            return ast.copy_location(ast.Constant(value=out[0].value), n)
+        n.values = out
+        return n
+
+
+def propagate_new_constants(model, module_names: dict) -> list:
+    """Named constants that do not exist in the pinned tree (`_PREFIX = "jaxtyping9"`, an error text,
+    an environment-variable name) are substituted back where they are read, in function bodies and
+    class bodies; f-strings whose holes became literals are folded.  `module_names`: module -> names
+    bound at module level in the pinned tree.  Returns the names substituted."""
+    consts = {}
+    for mod in model.modules.values():
+        if mod.short.startswith("_typeguard"):
+            continue
+        known = module_names.get(mod.short, set())
+        for name, vals in mod.assigns.items():
+            if name in known or len(vals) != 1 or vals[0] is None:
+                continue
+            if name in mod.functions or name in mod.classes:
+                continue
+            c = _const_node(vals[0])
+            if c is not None:
+                consts[(mod.short, name)] = c
+    if not consts:
+        return []
+    used = set()
+
+    def rewrite(scope, node):
+        class Tr(ast.NodeTransformer):
+            def visit_Name(self, n):
+                if isinstance(n.ctx, ast.Load):
+                    b = model.resolve_name(scope, n.id)
+                    if b.kind == "modvar":
+                        key = (b.target[0].short, b.target[1])
+                        if key in consts:
+                            used.add(key)
+                            return ast.copy_location(copy.deepcopy(consts[key]), n)
+                return n
+
+            def visit_FunctionDef(self, n):
+                return n if n is not node else self.generic_visit(n)
+
+            visit_AsyncFunctionDef = visit_FunctionDef
+
+            def visit_ClassDef(self, n):
+                return n if n is not node else self.generic_visit(n)
+
+        Tr().visit(node)
+        _FoldFStrings().visit(node)
+
+    for f in list(model.functions.values()):
+        if f.module.short.startswith("_typeguard"):
+            continue
+        rewrite(f, f.node)
+    for mod in model.modules.values():
+        if mod.short.startswith("_typeguard"):
+            continue
+        for st in mod.tree.body:
+            if isinstance(st, (ast.FunctionDef, ast.AsyncFunctionDef, ast.ClassDef)):
+                continue
+            if isinstance(st, ast.Assign) and len(st.targets) == 1 and isinstance(st.targets[0], ast.Name) and (mod.short, st.targets[0].id) in consts:
+                continue
+            rewrite(mod, st)
+    return sorted(f"{m}.{n}" for m, n in used)
